@@ -708,6 +708,21 @@ def leave_or_bulk_run(run, rng, mode, idx, variant):
                         log.emit('api.raise', op='disconnect', exc=repr(e))
             conn.register_packet_listener(leave, serverbound.play.ChatPacket,
                                           outgoing=True)
+        # the wall clock is stepped while the flush is under way (an NTP
+        # correction, a resume from suspend): what is queued is still sent
+        clock = pc.SteppingClock()
+        step_by = (0, 3600, -3600, 86400 * 400)[idx % 4]
+        sends, armed = [0], []
+        if step_by:
+            w['wall_clock_stepped_by'] = step_by
+
+            def send_hook(kind, proxy, data):
+                if kind == 'send' and armed:
+                    sends[0] += 1
+                    if sends[0] == 3:
+                        clock.step(step_by)
+                        run.count('flushes_with_wall_clock_step')
+            conn.vf_send_hook = send_hook
         conn.connect()
         if not pc.wait_for(lambda: isinstance(conn.reactor, C.PlayingReactor)
                            and state.get('in_play'), 10.0):
@@ -722,16 +737,18 @@ def leave_or_bulk_run(run, rng, mode, idx, variant):
                 user_ops(conn, log, lock, threads[i], final, i)
         ts = [threading.Thread(target=user, args=(i,), name='u%d' % i,
                                daemon=True) for i in range(len(threads))]
-        for t in ts:
-            t.start()
-        for t in ts:
-            t.join(30.0)
-        if any(t.is_alive() for t in ts):
-            return 'watchdog: writers alive ' + pc.dump_threads()[-900:]
-        if variant == 'leave' and not left:
-            pc.wait_for(lambda: left, 5.0)
-        if not pc.wait_idle(conn, 20.0):
-            return 'watchdog: threads alive ' + pc.dump_threads()[-900:]
+        armed.append(1)
+        with clock:
+            for t in ts:
+                t.start()
+            for t in ts:
+                t.join(30.0)
+            if any(t.is_alive() for t in ts):
+                return 'watchdog: writers alive ' + pc.dump_threads()[-900:]
+            if variant == 'leave' and not left:
+                pc.wait_for(lambda: left, 5.0)
+            if not pc.wait_idle(conn, 20.0):
+                return 'watchdog: threads alive ' + pc.dump_threads()[-900:]
         server.join(15.0)
         if [e for e in server.errors if e[1] in ('script', 'timeout')]:
             return 'server: %r' % (server.errors[:1],)
